@@ -1,6 +1,70 @@
-(* Props/C02.v — property theorems only; each closed by [exact] of a lemma proved elsewhere. *)
-Require Import IP.Base.Bytes IP.DM.Value IP.Codec.Cbor.
+(* Props/C02.v — DAG-CBOR encoding is canonical, order-independent, round-trips; the predicted
+   length is the produced length.  Property theorems only: each is closed by [exact] of a lemma
+   proved in coq/Proofs/, with Print Assumptions beneath. *)
+Require Import IP.Base.Bytes IP.DM.Value IP.Codec.Cbor IP.Codec.CborSpec.
+Require Import IP.Proofs.BytesFacts IP.Proofs.CborEnc IP.Proofs.CborDec IP.Proofs.CborCanon.
+From Coq Require Import Permutation.
+Open Scope N_scope.
 
-Theorem C02_placeholder : forall v, enc dagcbor_eopts v = enc dagcbor_eopts v.
-Proof. reflexivity. Qed.
-Print Assumptions C02_placeholder.
+(* The model encoder with links allowed never fails and equals the closed form [encb]. *)
+Theorem C02_encoder_closed_form : forall o v, e_allow_links o = true -> enc o v = Ok (encb (e_sort o) v).
+Proof. exact enc_ok. Qed.
+Print Assumptions C02_encoder_closed_form.
+
+(* Canonical: for every value whose ints fit a node and whose maps have distinct keys, the bytes the
+   registered codec produces are in the relation Canon (shortest heads, float64 only, definite
+   lengths, keys length-then-bytewise, tag 42 over 0x00-prefixed CID) ... *)
+Theorem C02_canonical : forall v, int_ok v -> keys_nodup v -> Canon v (encb SortRFC7049 v).
+Proof. exact canon_enc. Qed.
+Print Assumptions C02_canonical.
+
+(* ... and that relation determines the bytes: "exactly the canonical byte string". *)
+Theorem C02_canonical_unique : forall v, keys_nodup v -> forall b1 b2, Canon v b1 -> Canon v b2 -> b1 = b2.
+Proof. exact canon_unique. Qed.
+Print Assumptions C02_canonical_unique.
+
+(* the heads used are the shortest ones: the SPEC's strict head reader accepts exactly them *)
+Theorem C02_heads_shortest : forall bs mj a r, Forall (fun b => b < 256) bs ->
+  rd_head true bs = Some (mj, a, r) -> bs = head mj a ++ r /\ a < two64 /\ mj < 8.
+Proof. exact rd_head_strict_inv. Qed.
+Print Assumptions C02_heads_shortest.
+
+(* Order independence: values equal up to the order of map entries (at every level) encode to the
+   same bytes under both sorting modes. *)
+Theorem C02_order_independent : forall m v1 v2,
+  m <> SortNone -> perm_eq v1 v2 -> keys_nodup v1 -> encb m v1 = encb m v2.
+Proof. exact encb_perm_invariant. Qed.
+Print Assumptions C02_order_independent.
+
+(* Round trip: decoding the produced bytes gives the value with maps in the emitted order, for all
+   values within the decoder's configured limits (depth, allocation budget, 32 MiB strings). *)
+Theorem C02_roundtrip : forall m o v,
+  d_allow_links o = true -> rt_ok v ->
+  (Z.of_nat (dm_depth v) <= max_depth o)%Z -> (cost v <= budget0 o)%Z ->
+  decode o (encb m v) = Ok (sortv m v, []).
+Proof. exact decode_encode. Qed.
+Print Assumptions C02_roundtrip.
+
+Theorem C02_roundtrip_sorted_is_sort_maps : forall v, sortv SortRFC7049 v = sort_maps rfc_ltb v.
+Proof. exact sortv_rfc. Qed.
+Print Assumptions C02_roundtrip_sorted_is_sort_maps.
+
+(* Length law (on the repaired tree: EncodedLength goes through AsUint for uint nodes). *)
+Theorem C02_length : forall m v, int_ok v -> enc_len true v = Ok (Z.of_nat (length (encb m v))).
+Proof. exact enc_len_correct. Qed.
+Print Assumptions C02_length.
+
+(* The defect that was repaired (fix: 6abf683): with AsInt only, the length of a uint above int64 fails. *)
+Theorem C02_length_refuted_pinned : exists v, int_ok v /\ enc_len false v = Err LEIntRange.
+Proof. exists (DInt 9223372036854775808). split; [cbn; unfold two63z, two64z; lia|reflexivity]. Qed.
+Print Assumptions C02_length_refuted_pinned.
+
+(* non-vacuity: a value with a nested map, a link-free list and boundary ints meets every hypothesis *)
+Example C02_hypotheses_satisfiable :
+  let v := DMap [([98;98], DList [DInt 65536; DInt (-25); DString [104;105]]); ([97], DMap [([], DNull)])] in
+  int_ok v /\ keys_nodup v /\ rt_ok v /\
+  decode (dagcbor_dopts true) (encb SortRFC7049 v) = Ok (sort_maps rfc_ltb v, []).
+Proof.
+  cbv zeta. repeat split; try (cbn; unfold two63z, two64z, str_cap, two63; lia);
+    try (repeat constructor; cbn; intuition discriminate).
+Qed.
